@@ -22,7 +22,7 @@ def budget(tier):
 
 @st.composite
 def _case(draw):
-    prof = S.profile(dep_only_file=0.2, services_in_subpackages=True, max_methods=5, max_services=2, p_http=0.3, p_sig=0.95, p_routing=0.05, p_paged=0.1, p_lro=0.08,
+    prof = S.profile(dep_only_file=0.2, dep_reserved_flattened_ok=True, services_in_subpackages=True, max_methods=5, max_services=2, p_http=0.3, p_sig=0.95, p_routing=0.05, p_paged=0.1, p_lro=0.08,
                      p_stream=0.12, p_dep_io=0.2, p_comment=0.03, max_messages=5, max_fields=6, p_reserved_field=0.15,
                      p_map=0.35, p_repeated=0.25, p_resource=0.1, max_files=2, p_keyword_rpc=0.03)
     api = draw(S.apis(prof))
